@@ -452,13 +452,12 @@ def main():
     obligations = len(thms) + n_examples
     discharged = obligations if ok_props else 0
     proof_problems = []
-    # an extractor failure concerns this property only if the property (its theorems, its driver,
-    # its companions' drivers) depends on a Gen module the failing generator writes
+    # an extractor failure concerns this property only if the property (its theorems, its driver)
+    # depends on a Gen module the failing generator writes
     if ext_errs:
+        # (a companion pass keeps running on the last generated tables; the property that owns that
+        #  engine reports the broken translator)
         roots = ["Strophe.Props." + pid, "Strophe.Drv." + prop.ENGINE[0].upper() + prop.ENGINE[1:]]
-        for (mname, _n) in getattr(prop, "ALSO", []):
-            e2 = importlib.import_module("props." + mname).ENGINE
-            roots.append("Strophe.Drv." + e2[0].upper() + e2[1:])
         mine = {os.path.splitext(os.path.basename(f))[0] for f in lean_files(roots)
                 if os.sep + "Gen" + os.sep in f}
         relevant = []
